@@ -106,6 +106,13 @@ def exec_step(world, step, idx):
             world.count("fault_downtime")
             world.count("sim_seconds", down)
         world.start(step=idx, kind="restart")
+    elif op == "bounce":
+        # C11 reference world: the clients merely drop; only the periodic timer is
+        # re-started so that both worlds sweep at once and share the sweep phase
+        for cid, c in sorted(world.conns.items()):
+            if c.alive:
+                world.drop(cid, "abrupt", step=idx)
+        world.bounce_timer(step=idx)
     elif op == "dbfault":
         err = step.get("error", "database is locked")
         if step.get("at", "sweep") == "sweep":
